@@ -6,6 +6,7 @@ import rxsci.compression.zstd as ZS
 from vp import drivers as D
 from vp.engine import Ob
 from vp.harness import mk, fail
+from vp import harness
 from vp.stubs import streamcodec as S
 
 PROP = 'C16'
@@ -39,12 +40,8 @@ def _env(codec):
 
 
 def _with(mod, attr, fake, f):
-    real = getattr(mod, attr)
-    setattr(mod, attr, fake)
-    try:
+    with harness.stubbed([(mod.__name__, attr, fake)]):
         return f()
-    finally:
-        setattr(mod, attr, real)
 
 
 def _run(chunks, op):
